@@ -206,6 +206,6 @@ Print Assumptions C19_sign_same_side.
 Theorem C19_txsign_refines_check_sign : forall tc c m k ty okv h,
   m_sig m = Some k -> tc_sig tc k = Some (ty, okv) ->
   c_sig c k = Some (crypto_id ty, okv) -> c_cry c = tc_cry tc ->
-  msign tc h m = check_sign c k h.
+  msign tc h m = tc_fok tc k && check_sign c k h.
 Proof. exact msign_refines_check_sign. Qed.
 Print Assumptions C19_txsign_refines_check_sign.
